@@ -89,6 +89,13 @@ def run(ctx):
                 call["mode"] = "failing_writer"
                 call["after"] = c["failAfter"]
             add([call], c["expected"], "encoder:%s:%s" % (c["enc"], c["ty"].lower()), "%s encoder, %s family, named=%s, %d metrics, writer fails after %d bytes" % (c["enc"], c["ty"], c["named"], c["nmetrics"], c["failAfter"]))
+    # families whose type number lies outside the enum (decoded from a newer producer's bytes; protobuf-backed model): unsupported
+    # input — either encoder may refuse it, neither may panic
+    for n in (5, 6, 127, -1, 2 ** 31 - 1):
+        for enc in ("text_encode", "pb_encode"):
+            for payload in ({"gauge": F(1.0)}, {"hist": {"count": 1, "sum": F(1.0), "b": [[F(1.0), 1]]}}, {}):
+                fam = {"name": "a", "help": "h", "type": "GAUGE", "type_number": n, "metrics": [dict({"labels": [["l", "v"]]}, **payload)]}
+                add([{"op": enc, "lit": [fam, {"name": "b", "help": "h", "type": "COUNTER", "metrics": [{"labels": [], "counter": F(1.0)}]}]}], "Any", "encoder:unknown-type-number", "%s of a family whose type number is %d" % (enc, n))
     # ---- (e) registry: new_custom arguments, register / unregister of odd collectors
     pool = ["", "a", "9", "a b", "é", "_", "a:b"]
     for p in pool + [None]:
